@@ -16,6 +16,8 @@ MODULES["C04"] += ["TjdProps.C03b", "TjdProps.C04b"]
 MODULES["C15"].append("TjdProps.C15b")
 MODULES["C10"].append("TjdProps.C10b")
 MODULES["C09"].append("TjdProps.C09b")
+for _c in ("C08", "C10", "C11", "C17"):
+    MODULES[_c].append("TjdProps.C17b")
 
 
 def main() -> int:
